@@ -199,6 +199,15 @@ inductive Arr
   deriving DecidableEq, Repr
 
 def pixelsOf (x : Img) : PixArr := ⟨x.shape, x.chans⟩
+
+/-- `x.mask`: the mask image of a masked image (held as its Boolean raster), and the Boolean array of a mask image
+(`self.mask.mask`): a mask image IS its raster in the model, so the second reading is the identity -/
+class HasMask (α : Type) where
+  mask : α → List Bool
+instance : HasMask Img := ⟨fun x => x.mask⟩
+instance : HasMask (List Bool) := ⟨id⟩
+@[simp] theorem mask_img (x : Img) : HasMask.mask x = x.mask := rfl
+@[simp] theorem mask_raster (m : List Bool) : HasMask.mask m = m := rfl
 /-- the C-order ravel of what is being reshaped: a 1-d vector, or a `(k, -1)` array held as its rows -/
 class ToFlat (α : Type) where
   toFlat : α → Vec
